@@ -29,7 +29,7 @@ CLAIMED = {
  "C09": dict(cat="other", ref="DESIGN.md 4/C09",
    text="Derived quantities proved for every probe generation/stream with symbolic numeric fields and an abstract IMRO table of symbolic length: s2v*gain*maxint == range, 1 on sync, length == nSavedChans; nidq segments; type/fs/counts/sync indices. "
         "The textual read->write->read round trip is a bounded stand-in over a grammar-generated corpus + shipped files (string theories do not decide float()/repr()).",
-   note="A-STR-FREE/A-SGLX (regex on imroTbl yields entries; split fields are the numbers). Known finding F-C09-1 (scalars < 1e-4).",
+   note="A-STR-FREE/A-SGLX (regex on imroTbl yields entries; split fields are the numbers). F-C09-1 (scalars < 1e-4) was repaired.",
    tech="AST->z3 VC generation over a symbolic metadata record (deductive) + bounded round-trip stand-in"),
  "C08": dict(cat="other", ref="DESIGN.md 4/C08",
    text="geometry_from_meta proved for site tables of any length in both encodings: the sort is a bijection moving every key together, ordered by (shank,row,-col); rc<->xy inverse on the three grids; the two encodings agree; split shank == restriction of the parent. "
